@@ -721,4 +721,76 @@ example : (3 / 5 : ℝ) ^ 2 + (4 / 5) ^ 2 = 1 ∧ 0 < (⟨1, 2⟩ : Cx ℝ).norm
 
 end degrees
 
+/-! ## 9. Round 4: every retarder class, through the executable model
+
+The subclasses map their parameters in Python; the harness sends the atoms each class implies to driver op `retarder` and compares
+with the class's `jones_matrix`, so the theorems below (about `Model.retarder`) speak about all six classes. -/
+section modelRetarder
+variable (c s pc ps xc xs : ℝ)
+
+/-- `Jᴴ J = 1` for the executable retarder with atoms on the unit circle. -/
+theorem model_retarder_unitary (h : c ^ 2 + s ^ 2 = 1) (hp : pc ^ 2 + ps ^ 2 = 1) (hx : xc ^ 2 + xs ^ 2 = 1) :
+    IsUnitary8 (retarder c s ⟨pc, ps⟩ ⟨xc, xs⟩).a11.re (retarder c s ⟨pc, ps⟩ ⟨xc, xs⟩).a11.im
+      (retarder c s ⟨pc, ps⟩ ⟨xc, xs⟩).a12.re (retarder c s ⟨pc, ps⟩ ⟨xc, xs⟩).a12.im
+      (retarder c s ⟨pc, ps⟩ ⟨xc, xs⟩).a21.re (retarder c s ⟨pc, ps⟩ ⟨xc, xs⟩).a21.im
+      (retarder c s ⟨pc, ps⟩ ⟨xc, xs⟩).a22.re (retarder c s ⟨pc, ps⟩ ⟨xc, xs⟩).a22.im := by
+  obtain ⟨t0, ti, tc⟩ := unit_circle c s h
+  obtain ⟨p0, pi, pcj⟩ := unit_circle pc ps hp
+  obtain ⟨x0, xi, xcj⟩ := unit_circle xc xs hx
+  have hgen := gen_retarder_eq_model c s pc ps xc xs h
+  simp only at hgen
+  rw [← ti, ← pi, ← xi] at hgen
+  obtain ⟨g11, g12, g21, g22⟩ := hgen
+  obtain ⟨h11, h12, h21, h22⟩ := retarder_unitary (⟨c, s⟩ : ℂ) ⟨pc, ps⟩ ⟨xc, xs⟩ t0 p0 x0 tc pcj xcj
+  have key := unitary8_of_complex _ _ _ _ h11 h12 h22
+  rw [g11, g12, g21, g22] at key
+  exact key
+
+/-- **The executable retarder** (`Model.retarder`, driver op `retarder`, compared with `jones_matrix` of *every* retarder class
+— `PhaseRetarder`, `LinearRetarder` (χ = 0), `CircularRetarder` (θ = π/4, χ = π/2), `QuarterWavePlate` (φ/2 = π/4),
+`HalfWavePlate` and `GeometricPhaseElement` (φ/2 = π/2) — at the atoms the class implies) conserves the intensity of every
+Jones-matrix (partially polarised) wavefront, for atoms on the unit circle. -/
+theorem model_retarder_conserves_I_tensor (h : c ^ 2 + s ^ 2 = 1) (hp : pc ^ 2 + ps ^ 2 = 1) (hx : xc ^ 2 + xs ^ 2 = 1)
+    (e : J2 ℝ) (sv : S4 ℝ) :
+    (jonesStokes (retarder c s ⟨pc, ps⟩ ⟨xc, xs⟩ * e) sv).i = (jonesStokes e sv).i := by
+  obtain ⟨t0, ti, tc⟩ := unit_circle c s h
+  obtain ⟨p0, pi, pcj⟩ := unit_circle pc ps hp
+  obtain ⟨x0, xi, xcj⟩ := unit_circle xc xs hx
+  have hgen := gen_retarder_eq_model c s pc ps xc xs h
+  simp only at hgen
+  rw [← ti, ← pi, ← xi] at hgen
+  obtain ⟨g11, g12, g21, g22⟩ := hgen
+  have key := retarder_conserves_I_tensor (⟨c, s⟩ : ℂ) ⟨pc, ps⟩ ⟨xc, xs⟩ t0 p0 x0 tc pcj xcj e sv
+  rw [g11, g12, g21, g22] at key
+  exact key
+
+/-- The atoms implied by the subclasses lie on the unit circle (`√½` for quarter-wave retardance and for the circular retarder). -/
+example : (0 : ℝ) ^ 2 + 1 ^ 2 = 1 ∧ (1 : ℝ) ^ 2 + 0 ^ 2 = 1 ∧ Real.sqrt (1 / 2) ^ 2 + Real.sqrt (1 / 2) ^ 2 = 1 := by
+  refine ⟨by norm_num, by norm_num, ?_⟩
+  rw [Real.sq_sqrt (by norm_num)]; norm_num
+
+end modelRetarder
+
+/-- In the executable model `backward` (`Jᴴ·`, op `applyadj`) undoes `forward` (`J·`, op `apply`) for every unitary `J`. -/
+theorem model_unitary_backward_forward (j : J2 ℝ)
+    (h : IsUnitary8 j.a11.re j.a11.im j.a12.re j.a12.im j.a21.re j.a21.im j.a22.re j.a22.im) (e : V2 ℝ) :
+    j.adj.apply (j.apply e) = e := by
+  obtain ⟨⟨xr, xi⟩, ⟨yr, yi⟩, ⟨zr, zi⟩, ⟨wr, wi⟩⟩ := j
+  obtain ⟨⟨pr, pi⟩, ⟨qr, qi⟩⟩ := e
+  obtain ⟨h1, h2, h3, h4⟩ := h
+  simp only at h1 h2 h3 h4
+  have e1 : ((J2.adj ⟨⟨xr, xi⟩, ⟨yr, yi⟩, ⟨zr, zi⟩, ⟨wr, wi⟩⟩).apply ((⟨⟨xr, xi⟩, ⟨yr, yi⟩, ⟨zr, zi⟩, ⟨wr, wi⟩⟩ : J2 ℝ).apply ⟨⟨pr, pi⟩, ⟨qr, qi⟩⟩)).x.re = pr := by
+    jones_model_expand; linear_combination pr * h1 + qr * h3 - qi * h4
+  have e2 : ((J2.adj ⟨⟨xr, xi⟩, ⟨yr, yi⟩, ⟨zr, zi⟩, ⟨wr, wi⟩⟩).apply ((⟨⟨xr, xi⟩, ⟨yr, yi⟩, ⟨zr, zi⟩, ⟨wr, wi⟩⟩ : J2 ℝ).apply ⟨⟨pr, pi⟩, ⟨qr, qi⟩⟩)).x.im = pi := by
+    jones_model_expand; linear_combination pi * h1 + qi * h3 + qr * h4
+  have e3 : ((J2.adj ⟨⟨xr, xi⟩, ⟨yr, yi⟩, ⟨zr, zi⟩, ⟨wr, wi⟩⟩).apply ((⟨⟨xr, xi⟩, ⟨yr, yi⟩, ⟨zr, zi⟩, ⟨wr, wi⟩⟩ : J2 ℝ).apply ⟨⟨pr, pi⟩, ⟨qr, qi⟩⟩)).y.re = qr := by
+    jones_model_expand; linear_combination pr * h3 + pi * h4 + qr * h2
+  have e4 : ((J2.adj ⟨⟨xr, xi⟩, ⟨yr, yi⟩, ⟨zr, zi⟩, ⟨wr, wi⟩⟩).apply ((⟨⟨xr, xi⟩, ⟨yr, yi⟩, ⟨zr, zi⟩, ⟨wr, wi⟩⟩ : J2 ℝ).apply ⟨⟨pr, pi⟩, ⟨qr, qi⟩⟩)).y.im = qi := by
+    jones_model_expand; linear_combination pi * h3 - pr * h4 + qi * h2
+  generalize ((J2.adj ⟨⟨xr, xi⟩, ⟨yr, yi⟩, ⟨zr, zi⟩, ⟨wr, wi⟩⟩).apply ((⟨⟨xr, xi⟩, ⟨yr, yi⟩, ⟨zr, zi⟩, ⟨wr, wi⟩⟩ : J2 ℝ).apply ⟨⟨pr, pi⟩, ⟨qr, qi⟩⟩)) = r at e1 e2 e3 e4
+  obtain ⟨⟨a, b⟩, ⟨c, d⟩⟩ := r
+  simp only at e1 e2 e3 e4
+  rw [e1, e2, e3, e4]
+
+
 end HcipyVerif.C08
